@@ -43,6 +43,8 @@ struct PeerParams
   int abortKind = 0;          // 0 none, 1 RST after abortAfter bytes, 2 close() after abortAfter bytes
   uint64_t abortAfter = 0;
   size_t reserve = 0;
+  double writePauseProb = 0.05; // fraction of reverse chunks followed by a short pause
+  uint32_t maxWriteChunk = 20000;
 };
 
 struct Peer
@@ -285,7 +287,7 @@ struct Peer
       {
         uint64_t left = revLeft > 0 ? revLeft : tailLeft;
         // a write that would block must be retried with the same bytes and length (TLS record already started)
-        size_t n = pendingW ? pendingW : size_t(std::min<uint64_t>(left, 1 + rng.below(rng.chance(0.3) ? 64 : 20000)));
+        size_t n = pendingW ? pendingW : size_t(std::min<uint64_t>(left, 1 + rng.below(rng.chance(0.3) ? 64 : P.maxWriteChunk)));
         fillRun(wb.data(), rk, wOff, n);
         int w = ioWrite(wb.data(), n);
         pendingW = w == 0 ? n : 0;
@@ -293,7 +295,7 @@ struct Peer
         {
           wOff += uint64_t(w); wrote += uint64_t(w); progressed = true; wantPollOut = false;
           if (revLeft > 0) revLeft -= uint64_t(w); else tailLeft -= uint64_t(w);
-          if (rng.chance(0.05) && !drain.load()) nextWriteAt = now + rng.range(50, 1500) * 1000ull;
+          if (rng.chance(P.writePauseProb) && !drain.load()) nextWriteAt = now + rng.range(50, 1500) * 1000ull;
         }
         else if (w == -1) { writeShut = true; writeGone = true; }  // the other side is gone: the read side will report EOF/reset
         else if (w < 0) { ioError = !protoError.load(); break; }
